@@ -14,7 +14,7 @@ def make_api(ctx, count):
         s = H.Scenario("a%d" % i)
         s.iface(0, mtu=1500, mac=G.rand_mac(rng))
         s.add("OPT sleep=0")
-        now = rng.choice([1, 2, 999, 1000, 1001, 60000, 10 ** 7])
+        now = rng.choice([1, 2, 999, 1000, 1001, 60000, 10 ** 7, 4294967296000 - 100000, 4294967296000 - 75000, 4294967296000 - 10000])      # also just below 2^32 seconds
         s.add("NOW %d" % now)
         s.add("AI 0")
         ops = [("AI",)]
@@ -88,7 +88,7 @@ def make_flow(ctx, count):
         s = H.Scenario("f%d" % i)
         s.iface(0, **H.iface_kw(cfg)).glob(**G.global_kw(G.rand_global(rng, icon_size=0)))
         s.add("OPT sleep=0")
-        now = rng.choice([1, 1000, 123456, (1 << 32) - 30000, 1 << 40])
+        now = rng.choice([1, 1000, 123456, (1 << 32) - 30000, 1 << 40, 4294967296000 - 100000, 4294967296000 - 75000, 4294967296000 - 20000])
         s.add("NOW %d" % now)
         ops = []
         degraded = i % 16 == 7
